@@ -43,7 +43,7 @@ META = {
 
 KINDS = ['section', 'subsection', 'equation', 'item', 'item2', 'figure', 'figure0', 'table', 'theorem', 'lemma', 'prop',
          'subsubsection', 'paragraph', 'figurec', 'tablec', 'captionin', 'align1', 'align2', 'eqnarray1', 'eqnarray2',
-         'sectionstar', 'subsectionstar']
+         'sectionstar', 'subsectionstar', 'eqaligned', 'longtable', 'longtable2']
 HEADINGS = ('section', 'subsection', 'subsubsection', 'paragraph', 'sectionstar', 'subsectionstar')
 
 
@@ -197,7 +197,9 @@ def _ref_par(x):
 
 
 def compile_doc(events):
-    lines = ['\\documentclass{article}'] + (['\\usepackage{amsmath}'] if any(e[0] == 'OBJ' and e[1]['kind'].startswith('align') for e in events) else []) + [
+    kinds_used = set(e[1]['kind'] for e in events if e[0] == 'OBJ')
+    lines = ['\\documentclass{article}'] + (['\\usepackage{amsmath}'] if any(k.startswith('align') or k == 'eqaligned' for k in kinds_used) else []) + (
+             ['\\usepackage{longtable}'] if any(k.startswith('longtable') for k in kinds_used) else []) + [
              '\\newcommand{\\qa}{a}', '\\newtheorem{thm}{Theorem}', '\\newtheorem{lem}[thm]{Lemma}',
              '\\newtheorem{prop}{Proposition}[subsection]', '\\begin{document}']
     for e in events:
@@ -255,6 +257,18 @@ def compile_doc(events):
             lines.append(pre)
             lines.append('\\begin{%s}%s%s\\\\ %s%s\\end{%s}' % (env, row1, lab if k.endswith('1') else '', row2, lab if k.endswith('2') else '', env))
             lines.append(post)
+        elif k == 'eqaligned':
+            # a multi-row aligned block inside a numbered equation, the label AFTER the block
+            lines.append(pre)
+            lines.append('\\begin{equation}\\begin{aligned} a&=\\mbox{%s}\\\\ c&=d \\end{aligned}%s\\end{equation}' % (m, lab))
+            lines.append(post)
+        elif k in ('longtable', 'longtable2'):
+            # a long table (its caption takes a TABLE number); longtable2 repeats a caption in the continuation head,
+            # which must not consume a second number
+            cont = '\\endfirsthead \\caption[]{(continued)}\\\\ x&y\\\\ \\endhead ' if k == 'longtable2' else ''
+            lines.append(pre)
+            lines.append('\\begin{longtable}{ll}\\caption{C%s}%s\\\\ a&b\\\\ %sc&d\\\\ \\end{longtable}' % (m, lab, cont))
+            lines.append(post)
         elif k == 'figure0':
             # a float whose caption is EMPTY (the labelled node has no children when later references are read)
             lines.append('\\begin{figure} %s F%s \\caption{}%s %s\\end{figure}' % (pre, m, lab, post))
@@ -283,6 +297,7 @@ EXPECT_NODE = {'section': ('section',), 'subsection': ('subsection',), 'equation
                'figure': ('caption',), 'table': ('caption',), 'theorem': ('thm', 'thmenv'), 'item2': ('item',),
                'lemma': ('lem', 'thmenv'), 'figure0': ('caption',), 'prop': ('prop', 'thmenv'),
                'subsubsection': ('subsubsection',), 'paragraph': ('paragraph',), 'figurec': ('caption',), 'tablec': ('caption',),
+               'eqaligned': ('equation',), 'longtable': ('caption',), 'longtable2': ('caption',),
                'sectionstar': ('section',), 'subsectionstar': ('subsection',), 'captionin': ('caption',), 'align1': ('align',), 'align2': ('ArrayRow',), 'eqnarray1': ('eqnarray',), 'eqnarray2': ('ArrayRow',)}
 
 
@@ -295,6 +310,17 @@ def run_doc(events, objs):
     objnode = {}
     for o in objs:
         cands = []
+        if o['kind'] in ('longtable', 'longtable2'):
+            # the caption of a long table is taken out of the rows and kept as the table's `title`
+            for n in nodes:
+                cap = getattr(n, 'title', None) if n.nodeName == 'longtable' else None
+                try:
+                    if cap is not None and ('C' + o['m']) in str(cap.textContent):
+                        cands.append(cap)
+                except Exception:
+                    pass
+            objnode[o['m']] = cands
+            continue
         for n in nodes:
             if n.nodeName in EXPECT_NODE[o['kind']]:
                 txt = ''
@@ -313,7 +339,7 @@ def run_doc(events, objs):
                 except Exception:
                     txt = ''
                 if ('T' + o['m'] in txt) or ('C' + o['m'] in txt) or (o['kind'] in ('equation', 'item', 'item2', 'theorem', 'lemma', 'prop') and o['m'] in txt.split()) \
-                        or (o['kind'] in ('equation', 'align1', 'align2', 'eqnarray1', 'eqnarray2') and o['m'] in txt):
+                        or (o['kind'] in ('equation', 'align1', 'align2', 'eqnarray1', 'eqnarray2', 'eqaligned') and o['m'] in txt):
                     cands.append(n)
         objnode[o['m']] = cands
     out = {}
@@ -577,6 +603,10 @@ def expected_numbers(objs):
             continue
         if k in ('figure0', 'figurec', 'captionin'):
             k = 'figure'
+        if k == 'eqaligned':
+            k = 'equation'
+        if k in ('longtable', 'longtable2'):
+            k = 'table'
         if k == 'tablec':
             k = 'table'
         if k == 'lemma':
